@@ -782,6 +782,10 @@ func scanFields(buf []byte, i int) (int, []byte, error) {
 		if buf[i] == '"' && equals > commas {
 			quoted = !quoted
 			i++
+			// a closing quote ends the string value: only a separator may follow it
+			if !quoted && i < len(buf) && buf[i] != ',' && buf[i] != ' ' && buf[i] != '"' {
+				return i, buf[start:i], fmt.Errorf("invalid field format")
+			}
 			continue
 		}
 
